@@ -286,18 +286,18 @@ def fragment_correspondence(ctx: fw.Ctx):
         reqs.append(["facts", sx])
     replies = ctx.driver.ask_many(reqs)
     bad = 0
-    hyp = {"inputs": 0, "orderOk": 0, "inlineCleanB": 0, "safe": 0, "spacing_nf": 0, "tokens": 0}
+    hyp = {"inputs": 0, "orderOk": 0, "beforeFlatB": 0, "safe": 0, "spacing_nf": 0, "tokens": 0}
     for k, (origin, text, tree) in enumerate(texts):
         got, pieces, flat, facts = replies[4 * k], replies[4 * k + 1], replies[4 * k + 2], replies[4 * k + 3]
         if facts and facts[0] == "ok":
             # the decidable hypotheses / conclusions of the fragment theorems on this input, evaluated by
             # the compiled model: C01.frag_tokens_preserved and frag_safe have no exclusion, C18.frag_spacing_nf
-            # holds under inlineCleanB. An instance contradicting a theorem means the driver does not run
+            # holds under beforeFlatB. An instance contradicting a theorem means the driver does not run
             # the model the theorems are about.
             o_ok, clean, safe, nf, tk = (x == "t" for x in facts[1:6])
             hyp["inputs"] += 1
             hyp["orderOk"] += o_ok
-            hyp["inlineCleanB"] += clean
+            hyp["beforeFlatB"] += clean
             hyp["safe"] += safe
             hyp["spacing_nf"] += nf
             hyp["tokens"] += tk
